@@ -1,0 +1,14 @@
+//go:build verif
+// +build verif
+
+package main
+
+// verifDispatch handles the driver commands other than "options" (pipeline and mirror drivers)
+func verifDispatch(cmd string, raw []byte) interface{} {
+	if f, ok := verifCommands[cmd]; ok {
+		return f(raw)
+	}
+	return map[string]string{"error": "unknown command " + cmd}
+}
+
+var verifCommands = map[string]func(raw []byte) interface{}{}
